@@ -25,6 +25,7 @@ struct Strict {
   bool check_total_uncompressed = true;   // total_uncompressed_size == sum(header + uncompressed body), per parquet.thrift "including the headers"
   bool check_rg_total_byte_size = true;   // RowGroup.total_byte_size == sum of the chunks' total_uncompressed_size
   bool require_tiling = true;             // chunks tile [4, footer) without gap or overlap
+  bool check_page_null_count = true;      // Statistics.null_count of a data page header == nulls in that page (C16 switches it off and asserts it itself)
 };
 
 inline bool decompress(int codec, const uint8_t *p, size_t n, size_t want, Bytes &out, std::string &err) {
@@ -186,7 +187,7 @@ inline bool read_file(const Bytes &f, FileOut &out, std::string &err, const Stri
             if (!ref::hybrid_decode(raw.data() + off, raw.size() - off, wd, nn, idx, e3, nn > 0)) return fail(where + "dictionary indices: " + e3);
             for (auto x : idx) { if (x >= dict.size()) return fail(where + "dictionary index " + std::to_string(x) + " out of range"); co.values.push_back(dict[x]); }
           } else return fail(where + "unsupported data encoding " + std::to_string(ph.data->encoding));
-          if (ph.data->statistics && ph.data->statistics->null_count && *ph.data->statistics->null_count != (int64_t)((size_t)nv - nn)) return fail(where + "page statistics null_count " + std::to_string(*ph.data->statistics->null_count) + " != " + std::to_string((size_t)nv - nn) + " nulls in the page");
+          if (st.check_page_null_count && ph.data->statistics && ph.data->statistics->null_count && *ph.data->statistics->null_count != (int64_t)((size_t)nv - nn)) return fail(where + "page statistics null_count " + std::to_string(*ph.data->statistics->null_count) + " != " + std::to_string((size_t)nv - nn) + " nulls in the page");
           seen += nv;
         } else return fail(where + "unsupported page type " + std::to_string(ph.type));
         co.pages.push_back(po);
